@@ -50,6 +50,7 @@ func c15Docs() []string {
 		`{"a":"s","b":null,"m":{"x":null,"y":[1],"z":{"x":1}},"n":{},"o":[],"pairs":[],"deep":{"p":{"x":{"x":1}}}}`,
 		`{"a":[1,2],"b":{"x":1},"c":0,"m":{"x":1,"y":1,"z":1,"w":1},"n":{"x":1,"y":1,"z":1,"w":1},"o":[{"k":"x"},{"k":"x"},{"k":"z"}],"pairs":[["a","b"],["c","d"],["e","f"]],"deep":{"a":{"b":1},"b":{"a":1}}}`,
 		`{"m":{"x":1,"y":2},"n":{"x":1,"y":2},"a":1,"b":1,"c":1,"o":[{"a":1,"b":2,"k":"x"}],"pairs":[["x",{"y":1}]],"deep":{"only":{"x":1,"y":2,"z":3,"w":4,"v":5}}}`,
+		`{"m":{"x":1,"y":"s","z":null,"w":[1],"v":{"x":1}},"n":{"x":"1","y":"s","u":2,"w":[1],"v":{"x":1.0}},"a":{"x":1},"b":{"x":1.0},"c":"c","o":[{"k":"p","x":1},{"k":"q","x":2},{"k":"p","x":3},{"k":"r"}],"pairs":[["x",1],["y",2],["x",3],["z",4]],"deep":{"p":{"x":1,"y":{"x":2}},"q":{"y":1,"x":{"y":2}}}}`,
 	}
 }
 
@@ -76,7 +77,7 @@ func init() {
 		ID:    "C15",
 		Title: "evaluation is deterministic apart from object member order",
 		Rule: "every range over a Go map inside the library is an environment question ('in which order are these n keys enumerated?') answered by the explorer; for every (expression, document) of the menu every vector of answers is explored " +
-			"(all n! orders at every question reached, independently; when the tree exceeds the execution cap, every vector with at most two non-default answers); executions whose non-default answers are all at non-enumerating sites (let, multi-select hash, merge, equality, AST walk) must give the identical observation, " +
+			"(all n! orders at every question reached, independently; when the tree exceeds the execution cap, every vector with at most two non-default answers, or at most one where even that tree exceeds 15 x the cap; the counters say how many pairs fell in each class); executions whose non-default answers are all at non-enumerating sites (let, multi-select hash, merge, equality, AST walk) must give the identical observation, " +
 			"executions that permute an enumerating site (object wildcard, keys, values, items) must agree after sorting the arrays; err-vs-err with different categories is permitted; a second phase repeats every point on the pristine build with Go's own randomised iteration; " +
 			"non-trivial = an (expression, document) pair with at least one question of two or more keys; distinct_nontrivial counts distinct default outcomes among them",
 		Phases: []core.Phase{{Name: "answers", Build: "instr", Fn: c15Run}, {Name: "runtime-order", Build: "pristine", Fn: c15RunPristine}},
@@ -181,7 +182,21 @@ func altsOf(q c15Question) int {
 	return factorial(q.N)
 }
 
-const c15Cap = 4000
+var c15Cap = 4000 // thorough: 100000
+
+// c15Generated: every object-valued producer under every order-insensitive consumer.
+func c15Generated() []string {
+	producers := []string{"m", "n", "merge(m, n)", "{p: a, q: b, r: c}", "from_items(pairs)", "group_by(o, &k)", "deep", "deep.p", "let $x = m, $y = n in merge($x, $y)", "from_items(items(m))", "o[0]", "merge(m, {x: a})", "{x: m.x, y: n.y, z: c}"}
+	consumers := []string{"sort(keys(%s))", "length(%s)", "%s == %s", "%s == m", "to_string(%s)", "sort(values(%s)[?type(@) == 'number'])", "%s.x", "length(items(%s))", "sort(items(%s)[*][0])", "type(%s)", "%s.* | length(@)",
+		"merge(%s, %s) == %s", "[%s, %s][*].x", "contains([%s], %s)", "max(values(%s)[?type(@) == 'number'])", "{u: %s, v: keys(%s) | sort(@)}", "%s != n", "[%s][?x].y", "not_null(%s.nope, %s.x)", "from_items(items(%s)) == %s"}
+	var out []string
+	for _, p := range producers {
+		for _, c := range consumers {
+			out = append(out, strings.ReplaceAll(c, "%s", p))
+		}
+	}
+	return out
+}
 
 // c15Explore explores the answer tree of one (expression, document).
 func c15Explore(r *core.Run, expr string, docText string) *core.Violation {
@@ -223,7 +238,20 @@ func c15Explore(r *core.Run, expr string, docText string) *core.Violation {
 	bound := -1 // unbounded
 	if product > c15Cap {
 		bound = 2
-		r.Add("pairs_explored_with_deviation_bound_2", 1)
+		// size of the two-deviation tree, estimated on the default execution's questions
+		one, two := 0, 0
+		for i, q := range base.Questions {
+			one += altsOf(q) - 1
+			for _, q2 := range base.Questions[i+1:] {
+				two += (altsOf(q) - 1) * (altsOf(q2) - 1)
+			}
+		}
+		if 1+one+two > 15*c15Cap {
+			bound = 1
+			r.Add("pairs_explored_with_deviation_bound_1", 1)
+		} else {
+			r.Add("pairs_explored_with_deviation_bound_2", 1)
+		}
 	} else {
 		r.Add("pairs_explored_exhaustively", 1)
 	}
@@ -316,6 +344,8 @@ func uniqStrings(ss []string) []string {
 	return out
 }
 
+var c15Thorough bool
+
 func c15AllExprs() []string {
 	seen := map[string]bool{}
 	var out []string
@@ -328,9 +358,12 @@ func c15AllExprs() []string {
 	for _, e := range c15Exprs {
 		add(e)
 	}
+	for _, e := range c15Generated() {
+		add(e)
+	}
 	// lets and multi-selects of the other menus (their order-insensitivity is what the strict comparison decides)
 	for i, e := range c19Expressions(false) {
-		if i%23 == 0 && !strings.Contains(e.Text, "group_by") {
+		if (i%23 == 0 || c15Thorough && i%3 == 0) && !strings.Contains(e.Text, "group_by") {
 			add(e.Text)
 		}
 	}
@@ -368,6 +401,7 @@ func c15Run(r *core.Run) {
 		r.InternalError("C15 needs the instrumented build")
 		return
 	}
+	c15SetTier(r)
 	r.Bound("expressions", len(c15AllExprs()))
 	r.Bound("documents", len(c15Docs()))
 	r.Bound("map_range_sites", verifrt.MapSites)
@@ -390,8 +424,17 @@ func c15Run(r *core.Run) {
 	}
 }
 
+func c15SetTier(r *core.Run) {
+	c15Thorough = r.Thorough()
+	c15Cap = 4000
+	if c15Thorough {
+		c15Cap = 100000
+	}
+}
+
 // c15RunPristine repeats every point under Go's own randomised map iteration.
 func c15RunPristine(r *core.Run) {
+	c15SetTier(r)
 	reps := 12
 	if r.Thorough() {
 		reps = 60
@@ -440,6 +483,7 @@ func c15RunPristine(r *core.Run) {
 }
 
 func c15Judge(r *core.Run, phase string, pt map[string]any) *core.Violation {
+	c15SetTier(r)
 	expr, docText := pstr(pt, "expr"), pstr(pt, "doc")
 	if phase == "runtime-order" || pbool(pt, "runtime") {
 		// a probabilistic phenomenon: repeat generously
